@@ -146,6 +146,20 @@ pub enum Payload {
     Int,
     Str,
     Bool,
+    /// `let <var> = <init>;` in the function body, then the variable is emitted
+    Local { var: String, init: LocalInit },
+}
+
+#[derive(Clone, Debug, PartialEq, Serialize, Deserialize)]
+pub enum LocalInit {
+    /// `T { }`           (the event parser infers T)
+    Lit(String),
+    /// `T::new()`        (inferred as T)
+    New(String),
+    /// `compute_it()`    (not inferable)
+    Call,
+    /// another parameter of the function
+    Param(String),
 }
 
 #[derive(Clone, Debug, PartialEq, Serialize, Deserialize)]
@@ -287,7 +301,17 @@ pub fn render_item(it: &Item) -> String {
             }
             o.push_str(" {\n");
             for e in &c.emits {
+                if let Payload::Local { var, init } = &e.payload {
+                    let rhs = match init {
+                        LocalInit::Lit(t) => format!("{} {{ }}", t),
+                        LocalInit::New(t) => format!("{}::new()", t),
+                        LocalInit::Call => "compute_it()".to_string(),
+                        LocalInit::Param(p) => p.clone(),
+                    };
+                    o.push_str(&format!("    let {} = {};\n", var, rhs));
+                }
                 let payload = match &e.payload {
+                    Payload::Local { var, .. } => format!("{}.clone()", var),
                     Payload::Var(v) => format!("{}.clone()", v),
                     Payload::Lit(t) => format!("{} {{ }}", t),
                     Payload::Int => "42".into(),
@@ -653,6 +677,8 @@ const FILE_POOL: &[&str] = &[
     "src/events.rs",
     "src/util/deep/nested.rs",
     "src/state.rs",
+    "src/events/mod.rs",
+    "src/util/mod.rs",
 ];
 
 pub fn gen_model(r: &mut Rng, p: &GenParams) -> Model {
@@ -754,10 +780,14 @@ pub fn gen_model(r: &mut Rng, p: &GenParams) -> Model {
         };
         let mut emits = vec![];
         let remaining_cmds = n_cmds - ci;
-        while events_left > 0 && (r.chance(1, 2) || events_left >= remaining_cmds) {
+        while events_left > 0 && (r.chance(1, 2) || events_left >= remaining_cmds) && emits.len() < 2 {
             events_left -= 1;
             let named_params: Vec<&Param> = params.iter().filter(|p| matches!(p.ty, Ty::Named(_))).collect();
-            let payload = match r.below(5) {
+            const LOCALS: &[&str] = &["status", "payload", "info"];
+            let payload = match r.below(8) {
+                5 if !type_names.is_empty() => Payload::Local { var: r.pick(LOCALS).to_string(), init: LocalInit::Lit(r.pick(&type_names).clone()) },
+                6 if !type_names.is_empty() => Payload::Local { var: r.pick(LOCALS).to_string(), init: LocalInit::New(r.pick(&type_names).clone()) },
+                5..=7 => Payload::Local { var: r.pick(LOCALS).to_string(), init: LocalInit::Call },
                 0 if !named_params.is_empty() => Payload::Var(r.pick(&named_params).name.clone()),
                 1 | 0 if !type_names.is_empty() => Payload::Lit(r.pick(&type_names).clone()),
                 2 => Payload::Int,
